@@ -285,7 +285,7 @@ class Report:
         return 1 if self.violations else 0
 
 
-def proof_stage(rep, module, extra_targets=("kyro_driver",), thorough=False):
+def proof_stage(rep, module, extra_targets=("kyro_driver",), thorough=False, also=()):
     """Builds the theorem module + driver, audits axioms, scans sources.
     Returns (ok, info dict).  On failure the caller runs its search before reporting."""
     info = {"module": module}
@@ -297,10 +297,14 @@ def proof_stage(rep, module, extra_targets=("kyro_driver",), thorough=False):
     if not ok:
         errs = [l for l in log.split("\n") if "error" in l][:20]
         info["errors"] = errs
-        info["obligations"] = obligations_of(module)
+        info["errors_detail"] = [l for l in log.split("\n") if l.startswith("error")][:8]
+        try:
+            info["obligations"] = obligations_of(module) + sum((obligations_of(m) for m in also), [])
+        except OSError:
+            info["obligations"] = []
         info["discharged"] = 0
         return False, info
-    names = obligations_of(module)
+    names = obligations_of(module) + sum((obligations_of(m) for m in also), [])
     aok, per, alog = axiom_audit(module, names)
     info["obligations"] = names
     info["axioms"] = per
